@@ -1,14 +1,16 @@
 """C08 -- relational groups, see checks/relational.py and DESIGN.md §5 C08"""
-from checks import relational
+from checks import relational, c08fp
 
-TECHNIQUE = "two symbolic executions of the real Model.build/process (and of set_initialization / ParameterScenario.get_parset / deepcopy / pickle) on z3-real proxies compared output by output: z3 term identity where both runs build the same term, SMT otherwise; counterexamples replayed on the unpatched code"
-EXPLANATION = "Original vs deep copy / pickle round trip / independent rebuild of the same inputs (M12 with programs, M7 timed, M10 functions, M1 with a partial hand-written initialization), the copy run *before* the original; and two projects whose frameworks share parameter names with different functions built, copied and run interleaved, each compared with a model built afresh afterwards. Obligations: every stock (rows of timed compartments), flow, parameter and sum-characteristic of the two runs is equal at every index (step-wise lockstep: after each Model.update_comps the second run's new stocks are proved equal to the first run's one-step terms and both continue from the same fresh variables), and the numeric content of the ParameterSet, ProgramSet, ProgramInstructions, framework tables and settings passed in is term-for-term unchanged afterwards. Not decided by this technique (no solver variable to vary): repeatability across processes, Result save/load files, OS-level state. Bounds: T <= 7 time points, dt = 0.25, one population (two with a transfer in thorough), values in unit ranges; floats as reals."
+TECHNIQUE = "two symbolic executions of the real Model.build/process (and of set_initialization / ParameterScenario.get_parset / deepcopy / pickle) on z3-real proxies compared output by output: z3 term identity where both runs build the same term, SMT otherwise; counterexamples replayed on the unpatched code; plus QF_FP (IEEE binary64) queries on the accumulation order of every function dependency list of a built model and its deep copy / unpickled copy, replayed through the real Parameter.update"
+EXPLANATION = "Original vs deep copy / pickle round trip / independent rebuild of the same inputs (M12 with programs, M7 timed, M10 functions, M1 with a partial hand-written initialization), the copy run *before* the original; and two projects whose frameworks share parameter names with different functions built, copied and run interleaved, each compared with a model built afresh afterwards. Obligations: every stock (rows of timed compartments), flow, parameter and sum-characteristic of the two runs is equal at every index (step-wise lockstep: after each Model.update_comps the second run's new stocks are proved equal to the first run's one-step terms and both continue from the same fresh variables), and the numeric content of the ParameterSet, ProgramSet, ProgramInstructions, framework tables and settings passed in is term-for-term unchanged afterwards. Not decided by this technique (no solver variable to vary): repeatability across processes, Result save/load files, OS-level state. Bit level (checks/c08fp.py): for a built M10F3 model (flow dependencies of 3 and 4 addends, two populations) and its deepcopy / pickle copy, each dependency list of each function parameter is either the same sequence (one term) or z3 decides over Float64 whether doubles exist on which the left-to-right sums differ; a solver model is written into the real objects and Parameter.update is run on both. Bounds: T <= 7 time points, dt = 0.25, one population (two with a transfer in thorough), values in unit ranges; floats as reals."
 GROUP_TIMEOUT = {"quick": 1800, "thorough": 3600}
 
 
 def groups(tier):
-    return relational.groups("C08", tier)
+    return relational.groups("C08", tier) + c08fp.groups(tier)
 
 
 def replay(rec):
+    if rec.get("replay", {}).get("group") == "c08fp":
+        return c08fp.replay(rec)
     return relational.replay("C08", rec)
